@@ -302,6 +302,9 @@ impl FixtureDatabase {
             );
 
             let mut new_modules: HashSet<std::path::PathBuf> = HashSet::new();
+            // Import targets that are already in the file cache but whose own imports have not
+            // been examined yet: they need no analysis, only a look at what they import.
+            let mut already_cached: HashSet<std::path::PathBuf> = HashSet::new();
 
             for file_path in &files_to_check {
                 if processed_files.contains(file_path) {
@@ -354,10 +357,14 @@ impl FixtureDatabase {
                                 }
                             }
 
-                            if !processed_files.contains(&canonical)
-                                && !self.file_cache.contains_key(&canonical)
-                            {
-                                new_modules.insert(canonical);
+                            if !processed_files.contains(&canonical) {
+                                if self.file_cache.contains_key(&canonical) {
+                                    // Already analysed (e.g. opened in the editor before the
+                                    // scan) but never examined for its own imports
+                                    already_cached.insert(canonical);
+                                } else {
+                                    new_modules.insert(canonical);
+                                }
                             }
                         }
                     }
@@ -385,17 +392,21 @@ impl FixtureDatabase {
                                 }
                             }
 
-                            if !processed_files.contains(&canonical)
-                                && !self.file_cache.contains_key(&canonical)
-                            {
-                                new_modules.insert(canonical);
+                            if !processed_files.contains(&canonical) {
+                                if self.file_cache.contains_key(&canonical) {
+                                    // Already analysed (e.g. opened in the editor before the
+                                    // scan) but never examined for its own imports
+                                    already_cached.insert(canonical);
+                                } else {
+                                    new_modules.insert(canonical);
+                                }
                             }
                         }
                     }
                 }
             }
 
-            if new_modules.is_empty() {
+            if new_modules.is_empty() && already_cached.is_empty() {
                 debug!("No new modules found in iteration {}", iteration);
                 break;
             }
@@ -422,7 +433,7 @@ impl FixtureDatabase {
             }
 
             // Next iteration will check the newly analyzed modules for their imports
-            files_to_check = new_modules.into_iter().collect();
+            files_to_check = new_modules.into_iter().chain(already_cached).collect();
         }
 
         // Re-analyze modules that were already cached but newly marked as
